@@ -50,6 +50,8 @@ func rulesC07(c *Ctx) {
 	c.Floor("C07.TXFN", 8)
 	rulePostCommit(c, "C07.POSTCOMMIT")
 	c.Floor("C07.POSTCOMMIT", 3)
+	// errors recorded while a child store persists the shared fields through the parent context
+	ruleParentChain(c, "C07.CHAIN")
 }
 
 // ---- C07.HOLDER ------------------------------------------------------------------------------
